@@ -179,15 +179,15 @@ fn late_originals_case(seed: u64, trace: bool) -> super::CaseOut {
 pub fn run(ctx: &Ctx) -> i32 {
     let t = std::time::Instant::now();
     let mut rep = Report::default();
-    let g = Group { name: "honest-null", cases: ctx.tier.pick(600, 40_000), budget_s: ctx.tier.pick(40.0, 900.0), exhaustive: false };
+    let g = Group { name: "honest-null", cases: ctx.tier.pick(600, 40_000), budget_s: ctx.tier.pick(40.0, 450.0), exhaustive: false };
     run_group(ctx, &mut rep, &g, |_, seed, trace| case(seed, Lane::Null, trace));
-    let g = Group { name: "dup-switch", cases: ctx.tier.pick(300, 20_000), budget_s: ctx.tier.pick(20.0, 300.0), exhaustive: false };
+    let g = Group { name: "dup-switch", cases: ctx.tier.pick(300, 20_000), budget_s: ctx.tier.pick(20.0, 150.0), exhaustive: false };
     run_group(ctx, &mut rep, &g, |_, seed, trace| dup_switch_case(seed, trace));
-    let g = Group { name: "late-originals", cases: ctx.tier.pick(1200, 60_000), budget_s: ctx.tier.pick(20.0, 400.0), exhaustive: false };
+    let g = Group { name: "late-originals", cases: ctx.tier.pick(1200, 60_000), budget_s: ctx.tier.pick(20.0, 200.0), exhaustive: false };
     run_group(ctx, &mut rep, &g, |_, seed, trace| late_originals_case(seed, trace));
     #[cfg(feature = "real")]
     {
-        let g = Group { name: "honest-real", cases: ctx.tier.pick(100, 4_000), budget_s: ctx.tier.pick(25.0, 300.0), exhaustive: false };
+        let g = Group { name: "honest-real", cases: ctx.tier.pick(100, 4_000), budget_s: ctx.tier.pick(25.0, 150.0), exhaustive: false };
         run_group(ctx, &mut rep, &g, |_, seed, trace| case(seed, Lane::Real, trace));
     }
     finish(
